@@ -722,6 +722,14 @@ def oracle(ctx, hints, effort):
         {"check": "ft-continuity", "model": "sph", "params": [0.3, 1e-3], "k_len": 1e-7},
         {"check": "pair-numeric-ft", "model": "samp", "params": rparams(np.random.default_rng(1), "samp"), "k_len": 1.0},
     ]
+    # the numerically transformed model at the ends of the fractional-volume range, and the unified sticky hard spheres at k = 0 (the
+    # small-argument branch of the spectrum) for polydispersities on both sides of 1
+    for fv in (0.02, 0.95, 0.98):
+        for kl in (0.0, 1.0):
+            cases.append({"check": "pair-numeric-ft", "model": "grf", "params": [fv, 1e-4, 1e-3], "k_len": kl})
+    for K in (0.5, 0.8, 1.5, 2.0):
+        for fv in (0.1, 0.3):
+            cases.append({"check": "mapping", "model": "ushs", "params": [fv, 1e-4, K], "k_len": 0.0, "r_len": 1.0})
     order = list(CLASSES)
     order.sort(key=lambda mname: 0 if mname in hint_models else 1)
     for model in order:
